@@ -10,6 +10,7 @@ open PysparklingVerif.Sql PysparklingVerif.Join PysparklingVerif.Agg Pysparkling
 def OpOk : Op → Prop
   | .join _ _ other => other.Consistent
   | .crossJoin other => other.Consistent
+  | .joinOn _ _ other => other.Consistent
   | .union other => other.Consistent
   | _ => True
 
@@ -31,6 +32,7 @@ theorem apply_consistent (d d' : DF) (op : Op) (h : d.Consistent) (ho : OpOk op)
   | rename old new => exact rename_consistent d old new h ns rs hn hr
   | join how on other => exact join_consistent d how on other h ho ns rs hn hr
   | crossJoin other => exact crossJoin_consistent d other h ho ns rs hn hr
+  | joinOn how cond other => exact joinOn_consistent d how cond other h ho ns rs hn hr
   | union other => exact union_consistent d other h ho ns rs hn hr
   | agg mode keys aggs => exact agg_consistent d mode keys aggs ns rs hn hr
   | pivot keys pcol values aggs => exact pivot_consistent d keys pcol values aggs ns rs hn hr
@@ -56,6 +58,30 @@ theorem run_consistent (ops : List Op) (d d' : DF) (h : d.Consistent) (ho : ∀ 
     obtain ⟨d1, h1, hr⟩ := bind_ok hr
     exact ih d1 (apply_consistent d d1 op h (ho op List.mem_cons_self) h1)
       (fun op' h' => ho op' (List.mem_cons_of_mem _ h')) hr
+
+-- OBLIGATION: PysparklingVerif.C15.joinOn_rows_width
+/-- a join on a Column condition: for all six join types every output row has one value per output column - all columns of
+both sides, the left ones only for semi / anti - whatever the condition is (if it can be evaluated at all) -/
+theorem joinOn_rows_width (how : How) (e : Expr) (lnames rnames : List String) (ls rs out : List Row)
+    (hl : ∀ r ∈ ls, r.length = lnames.length) (hr : ∀ r ∈ rs, r.length = rnames.length)
+    (h : joinOnRows how e lnames.length rnames.length ls rs = .ok out) :
+    ∀ r ∈ out, r.length = (joinOnNames how lnames rnames).length :=
+  joinOnRows_width how e lnames rnames ls rs out hl hr h
+
+-- OBLIGATION: PysparklingVerif.C15.joinOn_semi_anti_partition
+/-- semi and anti joins on a condition split the left rows: each left row is in exactly one of the two results, in order -/
+theorem joinOn_semi_anti_partition (e : Expr) (ln rn : Nat) (ls rs semi anti : List Row)
+    (hs : joinOnRows .semi e ln rn ls rs = .ok semi) (ha : joinOnRows .anti e ln rn ls rs = .ok anti) :
+    semi.Sublist ls ∧ anti.Sublist ls ∧ semi.length + anti.length = ls.length :=
+  joinOnRows_semi_anti e ln rn ls rs semi anti hs ha
+
+-- OBLIGATION: PysparklingVerif.C15.joinOn_old_code
+/-- the code as it was ignored the join type: on this input its semi-join rows have four values under two columns -/
+theorem joinOn_old_code :
+    ∃ out, joinOnRowsOld (.gt (.col 0) (.lit (.int 1))) [[.int 2, .str "y"]] [[.int 1, .dbl 10]] = .ok out ∧
+      ∃ r ∈ out, r.length ≠ (joinOnNames .semi ["k", "v"] ["k2", "w"]).length :=
+  ⟨[[.int 2, .str "y", .int 1, .dbl 10]], by decide +kernel,
+    [.int 2, .str "y", .int 1, .dbl 10], List.mem_singleton.mpr rfl, by decide +kernel⟩
 
 -- OBLIGATION: PysparklingVerif.C15.sources_consistent
 /-- createDataFrame (rejecting ragged input) and range produce consistent frames; range has the
